@@ -10,14 +10,17 @@ import (
 // c01Cfg draws one concurrent-produce scenario.
 func c01Cfg(rng *rand.Rand, producers, batches int, parts int32) plogCfg {
 	cfg := plogCfg{
-		Topics:      map[string]int32{"t": parts},
-		Gated:       []string{"upload_segment", "upload_index", "update_offsets"},
-		FaultKinds:  []outcome{outFailBefore, outFailAfter},
-		FaultBudget: rng.Intn(3),
-		FlushOnAck:  true,
+		Topics:        map[string]int32{"t": parts},
+		Gated:         []string{"upload_segment", "upload_index", "update_offsets"},
+		FaultKinds:    []outcome{outFailBefore, outFailAfter},
+		FaultBudget:   rng.Intn(3),
+		FlushOnAck:    true,
 		IndexInterval: []int32{1, 3, 100}[rng.Intn(3)],
-		CacheBytes:  []int{0, 1 << 20}[rng.Intn(2)],
-		MaxSteps:    600,
+		CacheBytes:    []int{0, 1 << 20}[rng.Intn(2)],
+		MaxSteps:      600,
+	}
+	if rng.Intn(3) == 0 {
+		cfg.CancelBudget = 1 // one request may lose its client (context cancelled) while its uploads are in flight
 	}
 	switch rng.Intn(3) {
 	case 0: // never auto-flush in AppendBatch
@@ -56,6 +59,5 @@ func c01CfgSummary(cfg plogCfg) map[string]any {
 		actors = append(actors, l)
 	}
 	return map[string]any{"actors": actors, "fault_budget": cfg.FaultBudget, "buffer_max_bytes": cfg.BufferMaxBytes, "buffer_max_batches": cfg.BufferMaxBatch,
-		"buffer_max_msgs": cfg.BufferMaxMsgs, "index_interval": cfg.IndexInterval, "cache_bytes": cfg.CacheBytes, "default_health": cfg.DefaultHealth}
+		"buffer_max_msgs": cfg.BufferMaxMsgs, "index_interval": cfg.IndexInterval, "cache_bytes": cfg.CacheBytes, "default_health": cfg.DefaultHealth, "cancel_budget": cfg.CancelBudget}
 }
-
